@@ -36,6 +36,12 @@ func (f *Frame) nonNil(v Val, in ssa.Instruction, st *PState, what string) {
 	f.safety(st, "nil-deref", in, not(eq(v.T, "0")), what)
 }
 
+// strInv states the Go-level range of a string's length for a term produced by an external model.
+func (ex *Exec) strInv(term string) string {
+	ex.vc.Assume(fmt.Sprintf("(and (>= (str_len %s) 0) (<= (str_len %s) 9223372036854775807))", term, term))
+	return term
+}
+
 func (f *Frame) newErr(st *PState, hint string) Val {
 	ex := f.ex
 	v := ex.havocVal(hint, types.Universe.Lookup("error").Type())
@@ -150,9 +156,9 @@ func (f *Frame) externalModel(fn *ssa.Function, args []Val, in ssa.Instruction, 
 			// nil receiver prints "<nil>"
 			if z.LV == nil {
 				a := f.bigRead(z, st)
-				return Val{T: ex.vc.Define("bstr", SStr, ite(eq(z.T, "0"), ex.reg.StrLit("<nil>"), app("big_str", a))), S: SStr, GT: rt}, true
+				return Val{T: ex.strInv(ex.vc.Define("bstr", SStr, ite(eq(z.T, "0"), ex.reg.StrLit("<nil>"), app("big_str", a)))), S: SStr, GT: rt}, true
 			}
-			return Val{T: app("big_str", f.bigRead(z, st)), S: SStr, GT: rt}, true
+			return Val{T: ex.strInv(ex.vc.Define("bstr", SStr, app("big_str", f.bigRead(z, st)))), S: SStr, GT: rt}, true
 		case "Text", "Bytes", "BitLen", "Bit", "TrailingZeroBits", "ProbablyPrime", "Append", "Format", "MarshalJSON", "MarshalText", "FillBytes", "Float64":
 			rd(0)
 			return ex.havocVal("big_"+m, rt), true
@@ -252,11 +258,22 @@ func (f *Frame) externalModel(fn *ssa.Function, args []Val, in ssa.Instruction, 
 		v := ex.havocVal("scmp", rt)
 		ex.vc.Assume(fmt.Sprintf("(and (<= (- 1) %s) (<= %s 1) (= (= %s 0) (= %s %s)) (= (< %s 0) (str_lt %s %s)))", v.T, v.T, v.T, args[0].T, args[1].T, v.T, args[0].T, args[1].T))
 		return v, true
+	case "(*regexp.Regexp).Match", "(*regexp.Regexp).MatchString":
+		// whether a text matches a compiled pattern is a function of the pattern object and the text (the pattern language
+		// itself is not modelled): specs can name it as @re_match_bool(<regexp variable>, <text>)
+		use("T-REGEXP (*regexp.Regexp).Match/MatchString is an uninterpreted function re_match_bool(pattern object, text); no panic")
+		f.nonNil(args[0], in, st, "nil *regexp.Regexp")
+		fn := ex.reg.UFun("re_match_bool", []Sort{SInt, SStr}, SBool)
+		txt := args[1].T
+		if args[1].S == SBytes {
+			txt = app("b_str", args[1].T)
+		}
+		return Val{T: app(fn, args[0].T, txt), S: SBool, GT: rt}, true
 	case "strconv.Itoa":
-		return Val{T: app("int_str", args[0].T), S: SStr, GT: rt}, true
+		return Val{T: ex.strInv(ex.vc.Define("itoa", SStr, app("int_str", args[0].T))), S: SStr, GT: rt}, true
 	case "strconv.FormatInt":
 		if args[1].T == "10" {
-			return Val{T: app("int_str", args[0].T), S: SStr, GT: rt}, true
+			return Val{T: ex.strInv(ex.vc.Define("itoa", SStr, app("int_str", args[0].T))), S: SStr, GT: rt}, true
 		}
 	case "sort.Strings", "sort.Ints", "sort.Slice", "sort.SliceStable", "sort.Sort", "sort.Stable":
 		use("T-SORT sort.* permutes the elements of the slice in place (the result is a permutation of the old contents; the order itself is not modelled)")
@@ -480,6 +497,9 @@ func (f *Frame) serializerInvoke(c *ssa.CallCommon, args []Val, in ssa.Instructi
 			dok := ex.reg.UFun("deserok_"+sortTag(s)+"_"+h, []Sort{SBytes}, SBool)
 			ex.vc.Assume(app(dok, app(sfn, vterm)))
 			okc := eq(app("itag", errV.T), "0")
+			// whether serialisation succeeds is a function of the value (spec: serok(v, "T"))
+			sok := ex.reg.UFun("serok_"+sortTag(s)+"_"+h, []Sort{s}, SBool)
+			ex.vc.Assume(eq(okc, app(sok, vterm)))
 			ex.vc.Assume(implies(okc, eq(out.T, app(sfn, vterm))))
 			ex.vc.Assume(eq(app(dfn, app(sfn, vterm)), vterm))
 			ex.vc.Assume(not(app("b_nil", app(sfn, vterm))))
